@@ -39,6 +39,14 @@ impl TranspositionTable {
     }
 }
 
+#[cfg(flounder_verif)]
+impl TranspositionTable {
+    /// Verification hook: every entry currently in the table (for auditing cached claims).
+    pub fn verif_entries(&self) -> Vec<Entry> {
+        self.table.values().copied().collect()
+    }
+}
+
 #[derive(Copy, Clone, Debug, PartialEq)]
 pub struct Entry {
     pub hash_key: u64,
